@@ -23,7 +23,7 @@ func init() {
 		"Router.launchHandleRoutine", "Router.Closed")
 	second("network/tcp.go", "NewTCPConn", "TCPListener.listen", "TCPListener.Stop")
 	// the texts handleError looks for are part of what it decides
-	targets["network/tcp.go"] = append(targets["network/tcp.go"], "handleError+full+lit=b4")
+	targets["network/tcp.go"] = append(targets["network/tcp.go"], "handleError+args=b4")
 	second("network/local.go", "LocalHost.Connect", "NewLocalConnWithManager", "LocalManager.send", "LocalManager.close",
 		"LocalListener.Listen", "LocalListener.Stop")
 	second("context.go", "Context.SendRaw")
